@@ -161,8 +161,10 @@ static double stepSize(Config const& c, OptBase& o, Trace& t){
 		RealMatrix const& C = m.covarianceMatrix();
 		for(std::size_t i = 0; i != C.size1(); ++i) for(std::size_t j = 0; j != i; ++j)
 			if(!sameBits(C(i,j), C(j,i))){
-				double sc = std::fabs(C(i,j)) + std::fabs(C(j,i));
-				if(std::fabs(C(i,j) - C(j,i)) > 1e-12 * sc) fail(t, "covariance-not-symmetric");
+				// the two triangles are computed by different BLAS code paths: symmetric up to rounding
+				// relative to the scale sqrt(C_ii C_jj) of the entry
+				double sc = std::sqrt(std::fabs(C(i,i)) * std::fabs(C(j,j)));
+				if(!(std::fabs(C(i,j) - C(j,i)) <= 1e-12 * sc)) fail(t, "covariance-not-symmetric");
 			}
 		if(!cholesky(C)) fail(t, "covariance-not-positive-definite");
 		return m.sigma();
